@@ -113,6 +113,9 @@ def make_strategy(script: dict):
                         except Exception as ex:
                             d[key + '|cur'] = f'raise:{type(ex).__name__}'
                     ev['candles'] = d
+            if self.s.get('log_hp'):
+                ev['hp'] = None if self.hp is None else {k: (v if isinstance(v, (int, float)) else repr(v)) for k, v in self.hp.items()}
+                ev['hp_types'] = None if self.hp is None else {k: type(v).__name__ for k, v in self.hp.items()}
             ev.update(extra)
             TR.emit('hook', **ev)
             for m in HOOK_MONITORS:
@@ -410,7 +413,12 @@ def make_strategy(script: dict):
             self._observe('terminate')
 
         def hyperparameters(self):
-            return self.s.get('hyperparameters') or []
+            out = []
+            for h in self.s.get('hyperparameters') or []:
+                h = dict(h)
+                h['type'] = int if h['type'] == 'int' else float
+                out.append(h)
+            return out
 
         def dna(self):
             return self.s.get('dna') or ''
